@@ -35,7 +35,7 @@ func TestC09_Replay(t *testing.T) {
 				t.Fatalf("replay %s: %v", f, err)
 			}
 			// real sockets and goroutines: inputs replay, schedules do not - try a few times
-			tries := vEnvInt("VERIF_REPLAY_TRIES", 25)
+			tries := vEnvInt("VERIF_REPLAY_TRIES", 40)
 			n09ReplayMode = true
 			for i := 0; i < tries && rerr == nil; i++ {
 				out := n09RunCluster(&c)
